@@ -1171,6 +1171,11 @@ theorem mapPipeline_spec {κ} (t0 t : RawTree) (cfg : Config) (vote : Oracle κ)
 /-- `zip(xs[:-1], xs[1:])` -/
 def pairsOf (xs : List Level) : List (Level × Level) := xs.zip xs.tail
 
+theorem nodup_reverse {α} {xs : List α} (h : xs.Nodup) : xs.reverse.Nodup := by
+  unfold List.Nodup at h ⊢
+  rw [List.pairwise_reverse]
+  exact h.imp (fun hab => fun he => hab he.symm)
+
 theorem lookup_append_single {β} (m : List (Nat × β)) (k p : Nat) (v : β) :
     (m ++ [(p, v)]).lookup k = match m.lookup k with
       | some x => some x
